@@ -53,6 +53,15 @@ def master(l0: int, l1: int, l2: int) -> bool:
     return h.post(ok)
 
 
+def master1(l0: int) -> bool:
+    """
+    pre: MINLEN <= l0 <= MAXLEN
+    post: _
+    """
+    # C04.b on UDF configurations: one symbolic length (the others 2048 and 2049)
+    return master(l0, 2048, 2049)
+
+
 FUNCS_ALLOC = ['PyCdlib.new', 'PyCdlib.add_fp', 'PyCdlib.add_directory', 'PyCdlib.rm_file', 'PyCdlib.add_hard_link',
                'PyCdlib.rm_hard_link', 'PyCdlib.add_eltorito', 'PyCdlib.add_symlink', 'PyCdlib.force_consistency',
                'PyCdlib._finish_add', 'PyCdlib._finish_remove', 'PyCdlib._reshuffle_extents', '_reassign_vd_dirrecord_extents',
@@ -78,8 +87,6 @@ def obligations(tier):
         for c in cfgs:
             if sk == 'sk4' and not c['rr']:
                 continue
-            if tier == 'quick' and c['udf']:
-                continue        # UDF mastering: ~2 s per path and > 100 paths (measured) -> thorough tier only
             obs.append({'name': 'C04.b/%s/%s' % (sk, skel.cfg_name(c)), 'module': __name__, 'func': 'master',
                         'params': {'sk': sk, 'cfg': c, 'minlen': 1 if sk == 'sk3' else 0},
                         'cond_timeout': 900, 'path_timeout': 200,
